@@ -121,6 +121,30 @@ func (g *mgGen) stmt(d int, inLoop bool) (string, string) {
 		c, ci := g.cnd()
 		a, at := g.stmt(d-1, inLoop)
 		return fmt.Sprintf("if %s {\n%s}\n", c, a), fmt.Sprintf("ift %s %s", ci, at)
+	case k < 84 && d > 0: // tagless switch: 1..2 clauses and an optional default; break leaves the switch
+		var src strings.Builder
+		src.WriteString("switch {\n")
+		tok := ""
+		for n := 1 + r.Intn(2); n > 0; n-- {
+			c, ci := g.cnd()
+			a, at := g.stmt(d-1, inLoop)
+			if r.Intn(4) == 0 {
+				c2, ci2 := g.cnd()
+				a = fmt.Sprintf("if %s {\nbreak\n}\n", c2) + a
+				at = fmt.Sprintf("seq ift %s brk %s", ci2, at)
+			}
+			fmt.Fprintf(&src, "case %s:\n%s", c, a)
+			tok += fmt.Sprintf("swc %s %s ", ci, at)
+		}
+		if r.Bool() {
+			a, at := g.stmt(d-1, inLoop)
+			fmt.Fprintf(&src, "default:\n%s", a)
+			tok += "swd " + at
+		} else {
+			tok += "swd act 9999"
+		}
+		src.WriteString("}\n")
+		return src.String(), tok
 	case k < 92 && g.nloops < mgCounters: // for ck = 0; ck < N; ck = ck + 1 { body }
 		ck := mgLocals + g.nloops
 		g.nloops++
